@@ -84,6 +84,10 @@ def run(ck, a):
             ndiff += 1
             goals.append(z3.BoolVal(False) if isinstance(e, bool) else ab.formula(e))
         ck.add(Ob('vmap-transparent/%s/member%d (%d cells not syntactically identical)' % (tag, i, ndiff), [], z3.And(goals) if goals else True, timeout=120, meta={'tag': tag}))
+      # mutation twin: member 0 of the batched result is NOT the solo result of member 1 (the comparison is not blind)
+      ab2 = Abstractor(keep=30)
+      sw = [ab2.formula(lift(xc) == lift(yc)) for xc, yc in zip(np.asarray(ob[5][0], dtype=object).reshape(-1), np.asarray(solo[1][5], dtype=object).reshape(-1))]
+      ck.add(Ob('twin/member0-is-not-member1/%s' % tag, [z3.Not(z3.And(sw))], None, expect='sat', timeout=30))
       if not geoms and pname == 'spring':
         ck.samples.append({'model': tag, 'xml': xml})
 
@@ -125,6 +129,7 @@ def run(ck, a):
   # ---------------- domain randomisation wrapper vs a solo environment built from the member's system
   try:
     env = envs.get_environment('inverted_pendulum', backend='spring')
+    base_sys = env.unwrapped.sys
     scales = jp.array([0.5, 2.0])
     def rand_fn(sys):
       mass = sys.link.inertia.mass[None, :] * scales[:, None]
@@ -141,7 +146,7 @@ def run(ck, a):
     ctx = core.Ctx()
     (q0, q1, qd1, obs1, rew1), cj = core.run(ctx, dr_roll, acts)
     ck.traced('DomainRandomizationVmapWrapper.reset+step (inverted_pendulum, spring)', cj)
-    base_sys = env.unwrapped.sys
+    env.unwrapped.sys = base_sys      # the wrapper leaves the traced per-member system on the shared env object
     for i in range(2):
       sys_i = base_sys.tree_replace({'link.inertia.mass': base_sys.link.inertia.mass * scales[i]})
       def solo(act):
